@@ -230,7 +230,7 @@ if __name__ == "__main__":
 
 
 def write_replay(prop: str, ob: Ob, args, kwargs) -> str:
-    d = os.path.join(VERIF, "replays", prop)
+    d = os.path.join(os.environ.get("VF_REPLAY_DIR", os.path.join(VERIF, "replays")), prop)
     os.makedirs(d, exist_ok=True)
     p = os.path.join(d, re.sub(r"[^A-Za-z0-9_.-]", "_", ob.name) + ".py")
     with open(p, "w") as f:
@@ -267,7 +267,7 @@ def run_ob(prop: str, ob: Ob, scratch: str) -> Result:
             r.cex_args = res.get("cex")
             code = res.get("replay_code")
             if code:
-                d = os.path.join(VERIF, "replays", prop)
+                d = os.path.join(os.environ.get("VF_REPLAY_DIR", os.path.join(VERIF, "replays")), prop)
                 os.makedirs(d, exist_ok=True)
                 p = os.path.join(d, re.sub(r"[^A-Za-z0-9_.-]", "_", ob.name) + ".py")
                 open(p, "w").write(code)
@@ -455,8 +455,9 @@ def run_check(prop: str, tier: str, seed: int, obs: list[Ob], info: dict) -> int
         "wall_s": round(wall, 1),
         "violations": len(violations),
     }
-    os.makedirs(os.path.join(VERIF, "evidence"), exist_ok=True)
-    with open(os.path.join(VERIF, "evidence", f"{prop}.json"), "w") as f:
+    evdir = os.environ.get("VF_EVIDENCE_DIR", os.path.join(VERIF, "evidence"))      # (redirected only when trying seeded changes in scratch worktrees)
+    os.makedirs(evdir, exist_ok=True)
+    with open(os.path.join(evdir, f"{prop}.json"), "w") as f:
         json.dump(ev, f, indent=1, default=str)
     print(f"{prop} [{tier}] obligations={n} proved={proved} inconclusive={inconclusive} "
           f"known={len(known_hits)} violations={len(violations)} errors={len(errors)} wall={wall:.0f}s")
